@@ -4,6 +4,8 @@
  L2 every class length lies in the family's documented range
  L3 in every class the written offsets are exactly [0, len) (reversed put: (-len, 0]); fixed-width forms write exactly [0, w)
  L4 the sign-bit relocation constant of the 24/40/48/56-bit helpers is representable in the type it is formed in (compile witness)
+ L7 within every class the bytes written determine x (the digits cover every bit of x - a that varies on the class): necessary for
+    decode(encode(x)) == x, whatever the decoder does
  L6 no load/store wider than one byte with alignment > 1 through a pointer derived from a byte/void pointer parameter
 Value round-trip (decode(encode(x)) == x) is decided only through these necessary clauses and C04's byte-exact format tables;
 decoder tables (L5) are not built."""
@@ -28,6 +30,47 @@ def footprint_ok(st, n, reversed_rev=False):
     return offs == want, sorted(offs), sorted(want)
 
 
+def digit_info(t):
+    """byte term -> ('const',) | (a, shift, width|None): the byte is bits [shift, shift+width) of x - a (width None = up to the top),
+    possibly or-ed / added with a constant tag; None when the term has another shape"""
+    if is_c(t): return ("const",)
+    for _ in range(3):
+        if t[0] == "or" and isinstance(t[2], int): t = t[1]
+        elif t[0] == "add" and isinstance(t[2], int) and t[1][0] in ("shr", "and", "sub", "x"): t = t[1]
+        else: break
+    w = None; sh = 0
+    if t[0] == "and":
+        m = t[2]
+        if m & (m + 1): return None
+        w = m.bit_length(); t = t[1]
+    if t[0] == "shr": sh = t[2]; t = t[1]
+    if t[0] == "x": return (0, sh, w)
+    if t[0] == "sub" and t[1][0] == "x": return (t[2], sh, w)
+    return None
+
+
+def injective(lo, hi, st):
+    """the byte vector of a class determines x: the digits written cover every bit of x - a that varies on [lo, hi]"""
+    infos = [digit_info(norm(v, lo, hi)) for v in st.values()]
+    if any(i is None for i in infos): return None, "a byte is not a digit of x - a"
+    as_ = {i[0] for i in infos if i != ("const",)}
+    if not as_: return (lo == hi), "no byte depends on x"
+    if len(as_) != 1: return None, "bytes are digits of different offsets %s" % sorted(as_)
+    a = as_.pop(); tlo, thi = lo - a, hi - a
+    if tlo < 0: return None, "offset larger than the class minimum"
+    n = max(1, thi.bit_length()); cov = 0
+    for i in infos:
+        if i == ("const",): continue
+        _, sh, w = i
+        top = n if w is None else min(n, sh + w)
+        for b in range(sh, top): cov |= 1 << b
+    for b in range(n):
+        if not (cov >> b) & 1 and (tlo >> b) != (thi >> b):
+            t2 = thi if (thi >> b) & 1 and thi - (1 << b) >= tlo else tlo + (1 << b)
+            return False, "bit %d of x-%d varies on the class but is written nowhere: x=%d and x=%d encode to the same bytes" % (b, a, t2 - (1 << b) + a, t2 + a)
+    return True, ""
+
+
 def analyse(mod, run, label):
     ntab = 0
     for fam, d in FM.FAMILIES.items():
@@ -47,6 +90,12 @@ def analyse(mod, run, label):
             ok, got, want = footprint_ok(st, n)
             run.check(ok, "L3-footprint-is-0-to-len", {"encoder": d["enc"], "x_in": [lo, hi], "len": n},
                       Finding("L3-footprint-differs", d["enc"], fam, "class[%d,%d]" % (lo, hi), "%s writes offsets %s for x in [%d, %d] but returns length %d" % (d["enc"], got, lo, hi, n)))
+        # ---- L7: the encoder is injective on each class (necessary for decode(encode(x)) == x) ----
+        for lo, hi, ret, st in cls:
+            ok, why = injective(lo, hi, st)
+            if ok is None: raise AnalysisBroken("%s class [%d,%d]: injectivity not decidable: %s" % (d["enc"], lo, hi, why))
+            run.check(ok, "L7-encoder-injective", {"encoder": d["enc"], "x_in": [lo, hi]},
+                      Finding("L7-two-values-one-encoding", d["enc"], fam, "class[%d,%d]" % (lo, hi), "%s on x in [%d, %d]: %s - no decoder can return both values" % (d["enc"], lo, hi, why)))
         # ---- L1: predictors ----
         for fn in d["lens"]:
             lt = FM.extract(mod, fn, "len", in_lo=lo0); ntab += 1
